@@ -167,10 +167,24 @@ func MapIter[M ~map[K]V, K comparable, V any](m M) []MapEntry[K, V] {
 	if len(keys) >= 2 && E != nil {
 		// canonical base order: by a rank of the key that is the same in every execution
 		sort.SliceStable(keys, func(i, j int) bool { return keyRank(keys[i]) < keyRank(keys[j]) })
+		// one choice among all permutations (factorial number system); a non-canonical order is one deviation
+		nperm := 1
+		for i := 2; i <= len(keys) && nperm < 1000; i++ {
+			nperm *= i
+		}
+		code := 0
+		if nperm < 1000 {
+			code = ChooseOrder(nperm, "map order")
+		}
 		out := make([]K, 0, len(keys))
 		rest := keys
-		for len(rest) > 1 {
-			i := Choose(len(rest), "map order")
+		for radix := len(rest); radix > 1; radix-- {
+			f := 1
+			for i := 2; i < radix; i++ {
+				f *= i
+			}
+			i := code / f
+			code %= f
 			out = append(out, rest[i])
 			rest = append(append([]K(nil), rest[:i]...), rest[i+1:]...)
 		}
